@@ -86,6 +86,19 @@ func (st *State) modelVars() []ModelVar {
 			}
 		case *types.Map:
 			add(name, v.Term, SRef)
+			n := 0
+			for _, w := range st.mapWitness {
+				if w.m != v.Term || n >= 6 {
+					continue
+				}
+				// only entries that exist in the ENTRY state of the map are inputs
+				has, _ := st.mapLookupH(st.oldHeap, v, u, w.k.Term)
+				add(fmt.Sprintf("%s{%d}#has", name, n), and(w.cond, has), SBool)
+				expand(fmt.Sprintf("%s{%d}#key", name, n), w.k, depth+1)
+				_, ov := st.mapLookupH(st.oldHeap, v, u, w.k.Term)
+				expand(fmt.Sprintf("%s{%d}#val", name, n), ov, depth+1)
+				n++
+			}
 		case *types.Interface:
 			add(name+"#tag", app("i_tag", v.Term), SInt)
 			add(name+"#iref", app("i_ref", v.Term), SRef)
@@ -413,7 +426,21 @@ func (g *goBuilder) value(name string, T types.Type, depth int) string {
 		if n == nil || g.isNil(n) {
 			return "nil"
 		}
-		return "make(" + g.typeStr(T) + ")"
+		var ents []string
+		seenKey := map[string]bool{}
+		for k := 0; k < 6; k++ {
+			h := g.m.vals[fmt.Sprintf("%s{%d}#has", name, k)]
+			if h == nil || h.atom != "true" {
+				continue
+			}
+			ke := g.value(fmt.Sprintf("%s{%d}#key", name, k), u.Key(), depth+1)
+			if seenKey[ke] {
+				continue
+			}
+			seenKey[ke] = true
+			ents = append(ents, ke+": "+g.value(fmt.Sprintf("%s{%d}#val", name, k), u.Elem(), depth+1))
+		}
+		return g.typeStr(T) + "{" + strings.Join(ents, ", ") + "}"
 	case *types.Interface:
 		tag := g.m.vals[name+"#tag"]
 		if tag == nil {
